@@ -227,4 +227,122 @@ theorem run_ids_announced (me : Bytes) (ops : List Op) (b0 : Book) (gid : Nat) (
         · simp only [hc, if_false] at h1; exact Or.inl h1
     · exact Or.inr ⟨List.mem_cons_of_mem _ h1, h2⟩
 
+/-! ### the node around the table (round 5, review H #6) -/
+
+theorem nodeApply_ids (me : Bytes) (st : NodeSt) (op : NodeOp) (gid : Nat) :
+    Book.ids (NodeSt.apply me st op).book gid =
+      match op with
+      | .grouping g l => if g = gid ∧ me ∈ l ∧ Book.ids st.book gid = none then some l else Book.ids st.book gid
+      | .certified _ => Book.ids st.book gid
+      | .dissolve g => if g = gid ∧ g ∈ st.shares then none else Book.ids st.book gid := by
+  cases op with
+  | grouping g l => simp only [NodeSt.apply]; exact apply_ids me st.book (.grouping g l) gid
+  | certified g =>
+    simp only [NodeSt.apply]
+    cases Book.ids st.book g with
+    | none => rfl
+    | some _ => by_cases hm : g ∈ st.shares <;> simp [hm]
+  | dissolve g =>
+    simp only [NodeSt.apply]
+    by_cases hm : g ∈ st.shares
+    · simp only [hm, if_true, and_true]
+      exact apply_ids me st.book (.dissolve g) gid
+    · simp [hm]
+
+/-- whatever a NODE holds for `gid` after any sequence of announcements, certifications and dissolve
+events was announced for `gid`, names the node, and is stored unchanged -/
+theorem nodeRun_ids_announced (me : Bytes) (ops : List NodeOp) (st0 : NodeSt) (gid : Nat) (l : List Bytes)
+    (h : Book.ids (ops.foldl (NodeSt.apply me) st0).book gid = some l) :
+    Book.ids st0.book gid = some l ∨ (NodeOp.grouping gid l ∈ ops ∧ me ∈ l) := by
+  induction ops generalizing st0 with
+  | nil => exact Or.inl h
+  | cons op ops ih =>
+    rw [List.foldl_cons] at h
+    rcases ih _ h with h1 | ⟨h1, h2⟩
+    · rw [nodeApply_ids] at h1
+      cases op with
+      | certified g => exact Or.inl h1
+      | dissolve g =>
+        simp only at h1
+        by_cases hg : g = gid ∧ g ∈ st0.shares
+        · obtain ⟨rfl, hm⟩ := hg
+          simp [hm] at h1
+        · simp only [hg, if_false] at h1; exact Or.inl h1
+      | grouping g l' =>
+        simp only at h1
+        by_cases hc : g = gid ∧ me ∈ l' ∧ Book.ids st0.book gid = none
+        · simp only [hc, and_self, if_true, Option.some.injEq] at h1
+          subst h1
+          obtain ⟨hg, hm, _⟩ := hc
+          subst hg
+          exact Or.inr ⟨by simp, hm⟩
+        · simp only [hc, if_false] at h1; exact Or.inl h1
+    · exact Or.inr ⟨List.mem_cons_of_mem _ h1, h2⟩
+
+/-- a share is held only for a group whose key generation was certified -/
+theorem nodeRun_share_certified (me : Bytes) (ops : List NodeOp) (st0 : NodeSt) (gid : Nat)
+    (h : gid ∈ (ops.foldl (NodeSt.apply me) st0).shares) :
+    gid ∈ st0.shares ∨ NodeOp.certified gid ∈ ops := by
+  induction ops generalizing st0 with
+  | nil => exact Or.inl h
+  | cons op ops ih =>
+    rw [List.foldl_cons] at h
+    rcases ih _ h with h1 | h1
+    · cases op with
+      | grouping g l => exact Or.inl (by simpa [NodeSt.apply] using h1)
+      | dissolve g =>
+        by_cases hm : g ∈ st0.shares
+        · simp only [NodeSt.apply, hm, if_true, List.mem_filter] at h1; exact Or.inl h1.1
+        · simp only [NodeSt.apply, hm, if_false] at h1; exact Or.inl h1
+      | certified g =>
+        simp only [NodeSt.apply] at h1
+        cases hb : Book.ids st0.book g with
+        | none => simp only [hb] at h1; exact Or.inl h1
+        | some l0 =>
+          simp only [hb] at h1
+          by_cases hm : g ∈ st0.shares
+          · simp only [hm, if_true] at h1; exact Or.inl h1
+          · simp only [hm, if_false, List.mem_cons] at h1
+            rcases h1 with rfl | h1
+            · exact Or.inr (by simp)
+            · exact Or.inl h1
+    · exact Or.inr (List.mem_cons_of_mem _ h1)
+
+/-- **an entry without a share is permanent**: as long as the key generation of `gid` is not certified,
+no sequence of announcements and dissolve events changes the list the node holds for `gid` (a
+dissolve is not acted on, and every later announcement of the id is refused as a duplicate) -/
+theorem entry_without_share_stays (me : Bytes) (ops : List NodeOp) (st0 : NodeSt) (gid : Nat) (l0 : List Bytes)
+    (h0 : Book.ids st0.book gid = some l0) (hs : gid ∉ st0.shares) (hc : NodeOp.certified gid ∉ ops) :
+    Book.ids (ops.foldl (NodeSt.apply me) st0).book gid = some l0 ∧ gid ∉ (ops.foldl (NodeSt.apply me) st0).shares := by
+  induction ops generalizing st0 with
+  | nil => exact ⟨h0, hs⟩
+  | cons op ops ih =>
+    rw [List.foldl_cons]
+    have hc' : NodeOp.certified gid ∉ ops := fun h => hc (List.mem_cons_of_mem _ h)
+    apply ih _ _ _ hc'
+    · rw [nodeApply_ids]
+      cases op with
+      | certified g => exact h0
+      | dissolve g =>
+        simp only
+        by_cases hg : g = gid ∧ g ∈ st0.shares
+        · exact absurd (hg.1 ▸ hg.2) hs
+        · simp only [hg, if_false]; exact h0
+      | grouping g l => simp [h0]
+    · cases op with
+      | grouping g l => simpa [NodeSt.apply] using hs
+      | dissolve g =>
+        by_cases hm : g ∈ st0.shares
+        · simp only [NodeSt.apply, hm, if_true, List.mem_filter]; exact fun h => hs h.1
+        · simpa [NodeSt.apply, hm] using hs
+      | certified g =>
+        have hne : g ≠ gid := fun h => hc (by simp [h])
+        simp only [NodeSt.apply]
+        cases Book.ids st0.book g with
+        | none => exact hs
+        | some _ =>
+          by_cases hm : g ∈ st0.shares
+          · simpa [hm] using hs
+          · simp only [hm, if_false, List.mem_cons, not_or]; exact ⟨fun h => hne h.symm, hs⟩
+
 end Dos.Eval
